@@ -295,6 +295,18 @@ fn collect(specs: &[Spec]) -> (Vec<ClientCase>, Vec<Value>) {
                     }
                 }
             }
+            Spec::Names { extra } => {
+                for nc in crate::names::relation_cases(*extra) {
+                    if nc.duplicate_fields {
+                        continue; // two equal field names in one struct: not a Rust type at all
+                    }
+                    if let Some(c) = crate::gramsweep::case_from_source(&nc.source) {
+                        let mut pres = c.pres.clone();
+                        pres.names.retain(|k, _| !(k.starts_with('p') || k.starts_with('a')));
+                        add(c.g.clone(), pres, &mut out);
+                    }
+                }
+            }
         }
         scopes.push(json!({"name": spec.name(), "size": n, "accepted_modules": out.len() - before, "completed": true, "exhaustive": true}));
     }
@@ -352,9 +364,9 @@ fn evaluate(cases: &[ClientCase], tag: &str) -> (Vec<Vec<Finding>>, u64, u64, f6
 pub fn run(ctx: &Ctx) -> Outcome {
     let mut out = Outcome::new("exploration");
     let specs: Vec<Spec> = match ctx.tier {
-        Tier::Quick => vec![Spec::PSpace { max_fields: 3, recursion: false }],
+        Tier::Quick => vec![Spec::PSpace { max_fields: 3, recursion: false }, Spec::Names { extra: 1 }],
         Tier::Thorough => {
-            let mut v = vec![Spec::PSpace { max_fields: 3, recursion: true }, crate::gramsweep::g(2, 2, 3, 2)];
+            let mut v = vec![Spec::PSpace { max_fields: 3, recursion: true }, Spec::Names { extra: 1 }, crate::gramsweep::g(2, 2, 3, 2)];
             v.extend(crate::gramsweep::all_seed_nbh(1, 1, 600));
             v
         }
@@ -406,6 +418,8 @@ pub fn run(ctx: &Ctx) -> Outcome {
     }
     // every short identifier (underscore-initial, letter-less, with digits) in every naming role
     texts.extend(crate::c10::name_probe_files());
+    // every ordered pair of related names (prefixes, case variants, ...) in every pair of roles
+    texts.extend(crate::names::relation_sources(ctx.tier.pick(2, 3)));
     use rayon::prelude::*;
     let text_results: Vec<(bool, Option<Finding>, Option<String>)> = texts
         .par_iter()
@@ -433,12 +447,15 @@ pub fn run(ctx: &Ctx) -> Outcome {
             unreadable_note = e;
         }
     }
+    if text_unreadable > 0 {
+        machinery_error(format!("C06: the type definitions of {text_unreadable} emitted texts could not be read while {text_compared} could (last reason: {unreadable_note})"));
+    }
     out.cov("text_level_sources_compared", json!(text_compared));
     out.cov("text_level_sources_unreadable (oracle not applicable)", json!({"count": text_unreadable, "last_reason": unreadable_note}));
     let distinct: BTreeSet<&String> = cases.iter().map(|c| &c.case.rendered.source).collect();
     out.cov("evaluations", json!(cases.len() as u64 + text_compared));
     out.cov("distinct_nontrivial", json!(distinct.len()));
-    out.cov("rule", json!("one evaluation = one grammar presentation whose emitted module plus a generated client module is compiled by rustc and run; distinct = distinct grammar source texts; each is non-trivial: the client constructs and destructures every emitted type in exactly the declared shape; in addition a text-level oracle compares the emitted `pub struct|enum` items and the parse signature with the declarations for a broader corpus (repository grammars, G(2,2,3,2) under two presentations, all valid files of <=3 items of the C10 space)"));
+    out.cov("rule", json!("one evaluation = one grammar presentation whose emitted module plus a generated client module is compiled by rustc and run; distinct = distinct grammar source texts; each is non-trivial: the client constructs and destructures every emitted type in exactly the declared shape; in addition a text-level oracle compares the emitted `pub struct|enum` items and the parse signature with the declarations for a broader corpus (repository grammars, G(2,2,3,2) under two presentations, all valid files of <=3 items of the C10 space, the name-relation space)"));
     out.cov("exhaustive", json!(true));
     out.cov("scopes", json!(scopes));
     out.cov("clients_failing", json!(failing));
